@@ -377,6 +377,10 @@ pub fn execute_found(sc: &Scenario, acc: &mut Acc, mode: Mode) -> Result<Vec<Fou
                 }
             }
             acc.exhaustive_within_scenario = true;
+            if super::cap_plans(&mut plans, super::plan_cap(3 * log.len(), 1500), sc.seed) {
+                acc.exhaustive_within_scenario = false;
+                acc.hit("enumeration_capped");
+            }
         }
     } else {
         plans.push(given_plan.clone());
